@@ -250,8 +250,26 @@ def _bounded_rotation_laws(tier, seed):
 
 BOUNDED = [Bounded("rotation_and_mirror_laws", _bounded_rotation_laws)]
 
+# ---- rotation / mirror laws as spec-level lemmas (contracts/rotation_lemmas.py, built on the finite-sum permutation lemmas of
+# contracts/sum_lemmas.py): they speak about the spec functions e_of / moment_num / direction_of / spread_of that the contracts of
+# C01-C03 prove the code to compute; the bounded check above stays as a second line on the real code
+from contracts.rotation_lemmas import rotation_theory
+ROTATION = rotation_theory(direction_of, spread_of)
+LEMMAS = ROTATION["lemmas"]
+
 CONTRACTS = [mean_direction_static, spread_static, mean_a1, mean_b1, mean_a2, mean_b2, mean_direction, mean_spread, dir_per_f, spread_per_f]
 TRUSTED = ["xarray library contracts of pyvc/models/xr.py; np.trapezoid = trapezoid rule along the last axis",
-           "arctan2 in [-pi, pi] and sqrt facts of the A-table; pi between 3.14159265 and 3.14159266"]
+           "arctan2 in [-pi, pi] and sqrt facts of the A-table; pi between 3.14159265 and 3.14159266",
+           "induction over the integers (each induction lemma is a base / step pair of obligations; the principle itself is the meta-level step)",
+           "instantiation of a proved lemma (substitution of terms for its constants and of lambda bodies for its function symbols: contracts/sum_lemmas.py::inst_subst)"] + \
+          ["trusted identity (A-table, second part; used only in the rotation / mirror lemmas): " + t for t in ROTATION["trusted"]]
 EXPLANATION = ("direction = atan2(B,A) and spread = sqrt(2-2 sqrt(A^2+B^2)) in degrees with their ranges, the energy-weighted band averages of a1,b1,a2,b2 and the "
-               "per-frequency variants proved from the real methods; rotation/mirror laws are a bounded check")
+               "per-frequency variants proved from the real methods. Rotation / mirror laws: proved as spec-level lemmas about the spec functions the contracts of "
+               "C01-C03 tie the code to (e_of, C02's moment sums, direction_of, spread_of) on a uniform direction grid theta_j = theta_0 + j D, N D = 360: for "
+               "E'[f,j] = E[f,(j-k) mod N], e'(f) = e(f), A' = A cos(kD) - B sin(kD), B' = A sin(kD) + B cos(kD) for the directional sums A, B at every frequency, hence "
+               "A'^2 + B'^2 = A^2 + B^2 (spread unchanged) and direction' = direction + kD + 360 n; mirror image (theta_0 = 0): e' = e, A' = A, B' = -B, direction' = -direction "
+               "modulo 360, spread unchanged. They rest on a cyclic-shift and a mirror lemma for finite sums proved by induction over the Sum operator's schemas "
+               "(contracts/sum_lemmas.py: range split, index shift, reversal, split-first, linearity) and on trusted cos/sin/arctan2 identities listed in the trusted base. "
+               "Not mechanised: the step from the per-frequency sums to the band averages (linearity of the trapezoid in (A(f), B(f)) -- every quantity that reads only e(f): "
+               "m0, Hm0, periods, peak frequency, is unchanged because e' = e pointwise) and the code-level composition for a rotated *input object*; the bounded check on "
+               "the real code stays as the second line")
